@@ -167,9 +167,9 @@ claim(
 
 claim(
     "C01",
-    "Lean 4 proof (round trip cut into token / text / rebuild layers: the generator's tokens derive the circuit's statement tree in the grammar, lexing the generated text gives those tokens, the builder maps the tree back to the same circuit; complete literal layer) + differential correspondence of the whole round trip and of each layer with generate_jaqal_program / parse_jaqal_string",
-    "Theorems C01_float_roundtrip, C01_int_roundtrip, C01_num_roundtrip, C01_*_stable, C01_no_token_merge*, C01_readers_are_the_regexes (every numeric literal the generator can write — both repr layouts, ±0.0, exponents — is read back as one token with the same value, byte-stable); C01_tokens_derive / C01_parse_toks (the tokens written for ANY printable circuit are a program of the grammar with tree unbuild c, so the parser returns exactly that tree); C01_printable, C01_no_same_kind_nesting, C01_wf (every circuit parse_jaqal_string returns is printable and well-formed, in any statement order); C01_rebuild_canonical (for programs in the generator's statement order — every generated text is one — the builder maps unbuild c back to exactly c); C01_lex_gen (lexing the generated text gives the tokens, for printable LexSafe circuits); C01_roundtrip_canonical (their composition: parse(generate(c)) == c and generate(parse(generate(c))) = generate(c)); C01_compose and C01_roundtrip_partial reduce the unrestricted statement to two named propositions; C01_builder_api, C01_zero_step_rejected, C01_no_literal_zero_step, C01_asInteger_idem, C01_subcount_fixpoint, C01_slice_stop_fixpoint cover the builder-API spellings.",
-    COMMON_NOTE + "Not proved, kept as named propositions with the missing lemma named (Props/C01.lean): C01_reorder_full (an accepted program whose statements are NOT in the generator's order builds the same circuit as its reordering) and C01_lexsafe_full (every parser-produced circuit is LexSafe; false beyond CPython's 4300-digit integer limit, where the real code fails earlier). The unrestricted C01_roundtrip_full follows from them by C01_roundtrip_partial; the differential harness evaluates every layer statement (incl. exact rebuild) on every generated program, in random statement orders, next to the real round trip, and after every pass. C01_meaning is conditional on ParserLike (no parameter shadowing a register the argument's source refers to).",
+    "Lean 4 proof (round trip cut into token / text / rebuild layers: the generator's tokens derive the circuit's statement tree in the grammar, lexing the generated text gives those tokens, the builder maps the tree back to the same circuit — for programs in any statement order, by a bubble-sort argument over the builder's loop; complete literal layer) + differential correspondence of the whole round trip and of each layer with generate_jaqal_program / parse_jaqal_string",
+    "C01_roundtrip_bounded proves, for EVERY text the parser accepts (any statement order, autoload off) whose circuit writes no integer of more than 4300 digits (decidable hypothesis IntsBounded), that the generator succeeds, its text is accepted, parses to a circuit == the original, and generating again gives the same text byte for byte (C01_roundtrip_bounded_again: the re-parsed circuit is again IntsBounded). Ingredients: C01_tokens_derive / C01_parse_toks (layer A: the tokens written for any printable circuit are a program of the grammar with tree unbuild c); C01_lex_gen_bounded with C01_lexsafe / C01_lexsafe_iff (layer B: lexing the generated text gives those tokens; names and floats of a parsed circuit are always writable, ints iff bounded); C01_reorder / C01_rebuild / C01_rebuild_exact (layer C: sorting an accepted program's statements into the generator's order does not change what the builder makes, and the builder maps unbuild c back to EXACTLY c); C01_printable, C01_no_same_kind_nesting, C01_wf; the literal layer C01_float_roundtrip, C01_int_roundtrip, C01_num_roundtrip, C01_*_stable, C01_no_token_merge*, C01_readers_are_the_regexes; C01_builder_api, C01_zero_step_rejected and the fixpoint lemmas for builder-API spellings. C01_big_stop shows in the model that the bound cannot be dropped.",
+    COMMON_NOTE + "One open known finding (int-beyond-str-limit, known_findings.txt): CPython cannot write or read an int of more than 4300 digits; a COMPUTED slice bound can exceed that (`register r[N]; let m -N; map a r[m:]; map b a[:]`, N = 4300 nines) and generate_jaqal_program raises ValueError on an accepted program — the unrestricted C01_roundtrip_full is therefore false of the code and of the model, the theorem carries IntsBounded, and the check prints the finding as KNOWN-FINDING (witness evaluated on every run; with 4299 nines the round trip works). C01_meaning (same gate-level meaning) is conditional on ParserLike (no parameter shadowing a register an argument's source refers to); meaning preservation is otherwise carried by == (C20_sound) and the oracle same_meaning.",
     "DESIGN.md §7 C01",
 )
 
